@@ -507,6 +507,78 @@ func tableGrowFails(t *TableInstance, cur, delta uint32) bool {
 //@     invariant 1 <= i && len(newRegion) == int(delta) && len(newRegion) >= 1 && verif_slice_at(newRegion, t.References, int(currentLen)) && len(t.References) == int(currentLen)+int(delta) && int(currentLen) == old[int](len(t.References))
 //@     invariant forall j int :: 0 <= j && j < int(currentLen) ==> t.References[j] == old[Reference](t.References[j])
 
+// ---- C03: the operand-stack primitives of function-body validation (func_validation.go). Every
+// instruction's typing rule in validateFunctionWithMaxStackValues is a sequence of these.
+// vtsLimit is the bottom of the innermost control frame: values below it belong to outer blocks.
+func vtsLimit(s *valueTypeStack) int {
+	if len(s.stackLimits) > 0 {
+		return s.stackLimits[len(s.stackLimits)-1]
+	}
+	return 0
+}
+
+// vtsPolyBottom: the frame holds exactly the stack-polymorphic marker left by unreachable code.
+func vtsPolyBottom(s *valueTypeStack) bool {
+	return len(s.stack) == vtsLimit(s)+1 && s.stack[vtsLimit(s)] == valueTypeUnknown
+}
+
+//@ prop C03
+//@ func (s *valueTypeStack) tryPop() (vt ValueType, limit int, ok bool)
+//@   requires vtsLimit(s) >= 0
+//@   ensures[reports-the-frame-bottom] limit == old(vtsLimit(s))
+//@   ensures[never-pops-below-the-frame] ok == (old(len(s.stack)) > old(vtsLimit(s)))
+//@   ensures[failure-changes-nothing] !ok ==> len(s.stack) == old(len(s.stack)) && vt == 0
+//@   ensures[polymorphic-marker-stays] old(vtsPolyBottom(s)) ==> ok && vt == valueTypeUnknown && len(s.stack) == old(len(s.stack))
+//@   ensures[pops-exactly-the-top] ok && !old(vtsPolyBottom(s)) ==> len(s.stack) == old(len(s.stack))-1 && vt == old[ValueType](s.stack[len(s.stack)-1])
+//@   ensures[rest-kept] forall i int :: 0 <= i && i < len(s.stack) ==> s.stack[i] == old[ValueType](s.stack[i])
+//@   ensures[same-backing-array] verif_slice_at(s.stack, old[[]ValueType](s.stack), 0) && cap(s.stack) == old(cap(s.stack))
+//@   modifies s.stack
+
+//@ func (s *valueTypeStack) pop() (ValueType, error)
+//@   requires vtsLimit(s) >= 0
+//@   ensures[fails-exactly-on-an-empty-frame] (r1 == nil) == (old(len(s.stack)) > old(vtsLimit(s)))
+//@   ensures[returns-the-top] r1 == nil ==> r0 == old[ValueType](s.stack[len(s.stack)-1])
+//@   ensures[pops-one-or-keeps-the-marker] r1 == nil && !old(vtsPolyBottom(s)) ==> len(s.stack) == old(len(s.stack))-1
+//@   ensures[same-backing-array] verif_slice_at(s.stack, old[[]ValueType](s.stack), 0) && cap(s.stack) == old(cap(s.stack))
+//@   modifies s.stack
+
+//@ func (s *valueTypeStack) popAndVerifyType(expected ValueType) error
+//@   requires vtsLimit(s) >= 0
+//@   ensures[accepts-exactly-a-matching-top] (r0 == nil) == (old(len(s.stack)) > old(vtsLimit(s)) && (old[ValueType](s.stack[len(s.stack)-1]) == expected || old[ValueType](s.stack[len(s.stack)-1]) == valueTypeUnknown || expected == valueTypeUnknown))
+//@   ensures[pops-one-or-keeps-the-marker] old(len(s.stack)) > old(vtsLimit(s)) && !old(vtsPolyBottom(s)) ==> len(s.stack) == old(len(s.stack))-1
+//@   ensures[never-below-the-frame] len(s.stack) >= old(vtsLimit(s)) || len(s.stack) == old(len(s.stack))
+//@   ensures[same-backing-array] verif_slice_at(s.stack, old[[]ValueType](s.stack), 0) && cap(s.stack) == old(cap(s.stack))
+//@   modifies s.stack
+
+//@ func (s *valueTypeStack) push(v ValueType)
+//@   ensures[pushes-on-top] len(s.stack) == old(len(s.stack))+1 && s.stack[len(s.stack)-1] == v
+//@   ensures[rest-kept] forall i int :: 0 <= i && i < old(len(s.stack)) ==> s.stack[i] == old[ValueType](s.stack[i])
+//@   ensures[high-water-mark] s.maximumStackPointer >= len(s.stack) && s.maximumStackPointer >= old(s.maximumStackPointer) && (s.maximumStackPointer == old(s.maximumStackPointer) || s.maximumStackPointer == len(s.stack))
+//@   modifies s.stack, elems(s.stack), s.maximumStackPointer
+
+//@ func (s *valueTypeStack) resetAtStackLimit()
+//@   requires 0 <= vtsLimit(s) && vtsLimit(s) <= len(s.stack)
+//@   ensures[drops-exactly-the-frame] len(s.stack) == old(vtsLimit(s))
+//@   ensures[outer-values-kept] forall i int :: 0 <= i && i < len(s.stack) ==> s.stack[i] == old[ValueType](s.stack[i])
+//@   ensures[same-backing-array] verif_slice_at(s.stack, old[[]ValueType](s.stack), 0) && cap(s.stack) == old(cap(s.stack))
+//@   modifies s.stack
+
+//@ func (s *valueTypeStack) unreachable()
+//@   requires 0 <= vtsLimit(s) && vtsLimit(s) <= len(s.stack)
+//@   ensures[frame-becomes-the-polymorphic-marker] vtsPolyBottom(s) && vtsLimit(s) == old(vtsLimit(s))
+//@   ensures[outer-values-kept] forall i int :: 0 <= i && i < old(vtsLimit(s)) ==> s.stack[i] == old[ValueType](s.stack[i])
+//@   modifies s.stack, elems(s.stack)
+
+//@ func (s *valueTypeStack) pushStackLimit(params int)
+//@   ensures[frame-starts-below-its-params] len(s.stackLimits) == old(len(s.stackLimits))+1 && vtsLimit(s) == len(s.stack)-params
+//@   ensures[outer-frames-kept] forall i int :: 0 <= i && i < old(len(s.stackLimits)) ==> s.stackLimits[i] == old[int](s.stackLimits[i])
+//@   modifies s.stackLimits, elems(s.stackLimits)
+
+//@ func (s *valueTypeStack) popStackLimit()
+//@   ensures[leaves-one-frame] (old(len(s.stackLimits)) > 0 ==> len(s.stackLimits) == old(len(s.stackLimits))-1) && (old(len(s.stackLimits)) == 0 ==> len(s.stackLimits) == 0)
+//@   ensures[outer-frames-kept] forall i int :: 0 <= i && i < len(s.stackLimits) ==> s.stackLimits[i] == old[int](s.stackLimits[i])
+//@   modifies s.stackLimits
+
 // ---- C14: a decoded memory is accepted exactly when minimum <= maximum <= limit and the capacity lies
 // between the minimum and the limit.
 //@ prop C14 C03
